@@ -119,11 +119,28 @@ def run(chk):
 
     # ------------------------------------------------------------------ R17.2 single writer
     chk.floor("stores to the mode flag", len(stores), 2)
+    other_writers = set()
     for mod, n in stores:
         f = owner(mod, n)
-        chk.require(f in cm_funcs, "R17.2", f"store:{f.short if f else mod.name}:{norm(n)}",
-                    f"the mode flag is written outside the context manager ({f.short if f else 'module level'})",
-                    f"{mod.relpath}:{n.lineno}", nontrivial=False)
+        if f is None:
+            chk.fail("R17.2", f"store:{mod.name}:{norm(n)}", "the mode flag is written at module level",
+                     f"{mod.relpath}:{n.lineno}")
+        elif f in cm_funcs:
+            chk.ok("R17.2", f"store:{f.short}:{norm(n)}", "inside the context manager", f"{mod.relpath}:{n.lineno}",
+                   nontrivial=False)
+        else:
+            other_writers.add(f)
+    if "decorator_forms" in chk.info:
+        chk.info["decorator_forms"] += len(other_writers)
+    for f in sorted(other_writers, key=lambda x: x.qualname):
+        # another function switching the mode: it must follow the same save / set / restore-on-every-exit discipline
+        n0 = len(chk.obs)
+        _generator_cm(chk, ix, f)
+        for o in chk.obs[n0:]:
+            o.rule = "R17.2"
+            o.key = f"{f.short}:{o.key}"
+            if o.status == "violated":
+                o.detail = f"{f.short} switches the mode flag itself: " + o.detail
     # the config object itself is created once and never rebound
     rebinds = []
     for mod in ix.modules.values():
@@ -353,9 +370,9 @@ def _generator_cm(chk, ix, cm):
     g = CFG(cm.node)
     yields = g.nodes_where(lambda s: any(isinstance(x, (ast.Yield, ast.YieldFrom)) for x in walk_expr(s))
                            and not isinstance(s, (ast.Try, ast.With, ast.If, ast.For, ast.While)))
-    if len(yields) != 1:
-        raise AnalysisError(f"{cm.short}: expected one yield, found {len(yields)}")
-    ynode = next(iter(yields))
+    if len(yields) > 1:
+        raise AnalysisError(f"{cm.short}: expected at most one yield, found {len(yields)}")
+    ynode = next(iter(yields)) if yields else None
     # saved variable: local assigned from a flag load before the set
     saves = {}
     for n, s in g.stmt.items():
@@ -374,9 +391,16 @@ def _generator_cm(chk, ix, cm):
     for n, s in restore_vals:
         if isinstance(s.value, ast.Name) and s.value.id in saves:
             restores.add(n)
-    chk.require(bool(saves), "R17.1", "cm:save", "the previous value of the flag is not saved before it is set", where)
-    chk.require(bool(sets_true) and all(g.dominated_by(ynode, {n}) for n in sets_true), "R17.1", "cm:set",
-                "the flag is not set to True on every path to the yield", where)
+    chk.require(bool(saves), "R17.1", f"{tagp}:save" if False else "cm:save", "the previous value of the flag is not saved before it is set", where)
+    tagp = "cm" if ynode is not None else f"scope:{cm.short}"
+    if ynode is None:
+        # a plain function that switches the mode on for the duration of a call: the protected region starts right
+        # after the flag was set
+        if len(sets_true) != 1:
+            raise AnalysisError(f"{cm.short}: writes the mode flag in a shape the checker cannot classify")
+        ynode = next(iter(sets_true))
+    chk.require(bool(sets_true) and all(g.dominated_by(ynode, {n}) for n in sets_true), "R17.1", f"{tagp}:set",
+                "the flag is not set to True on every path to the protected region", where)
     # the save must precede the set, and the saved variable must not be reassigned afterwards
     ok_order = bool(saves) and all(any(g.dominated_by(st, {sv}) for sv in saves.values()) for st in sets_true)
     chk.require(ok_order, "R17.1", "cm:save-before-set", "the flag is overwritten before its previous value was saved",
@@ -388,6 +412,8 @@ def _generator_cm(chk, ix, cm):
                 where)
     for exit_node, label in ((EXIT, "normal"), (RAISE, "exceptional")):
         ok = bool(restores) and g.must_pass_through(restores, frm=ynode, to=exit_node)
+        if ok and not yields:
+            ok = all(g.must_pass_through(restores, frm=nx, to=exit_node) for nx in g.all_succ(ynode))
         # the exit must actually be reachable to make the obligation non-vacuous
         chk.require(ok, "R17.1", f"cm:restore-on-{label}-exit",
                     f"a path from the yield to the {label} exit of the context manager does not restore the saved "
@@ -396,7 +422,8 @@ def _generator_cm(chk, ix, cm):
     chk.require(all(n in restores for n, _ in restore_vals) , "R17.1", "cm:restore-saved-not-constant",
                 "the flag is 'restored' to a constant / other value instead of the saved one "
                 "(breaks nested use of the context manager)", where)
-    # nothing after the restore sets the flag again
+    if not yields:
+        return
     # decorator form
     decos = [f for f in ix.functions.values() if f is not cm and f.parent is not None
              and any(isinstance(n, ast.With) for n in walk_local(f.node))]
